@@ -1,16 +1,23 @@
 import FcpptModel.Prelude.Proto
 import FcpptModel.Gen.Scalar
+import FcpptModel.Spec.C06
 /-!
 Driver for C06 (and the scalar part of C01): runs the definitions that `tools/cxx2lean.py`
 generated from /repo's headers.
 
-* `call f a [b [c]]`            — one result
+* `call f [a [b [c [d]]]]`      — one result (no argument: the compile-time masks `mask_c`, `shifted_mask_c`)
+* `list4 f as`                  — digest over all quadruples of a value list (`interval_distance`)
+* `alias f a`                   — the binary / ternary function called with THE SAME object for every parameter
+* `aliasl f as` / `aliasr f lo hi` — digest of `alias` over a list / a range
+* `static2 f a b`               — `ceil_div_static<T, a, b>::value` (harness: compile-time table) against the run-time `ceil_div`
+* `enumsize u m`                — `enum_::size<E>::value` of the harness enum over `u` whose `fcppt_maximum` is `m`
 * `range1 f lo hi`              — digest over a ∈ [lo,hi]
 * `range2 f alo ahi blo bhi`    — digest over the rectangle (a outer loop)
 * `range3 f lo hi`              — digest over all triples in [lo,hi]³
 * `list1 f as` / `list2 f as bs`— digest over explicit value lists / their cross product
 * `selfcheck f n`               — the harness enumerates a full square against its own 128-bit
                                    oracle and prints `ok n`; the model only echoes the count
+* `selfcheck f alo ahi`         — the same for the rows `alo..ahi` of the 16-bit square (count = rows · 65536)
 Results: integers as decimal, optionals as `some v` / `none`, bools as 1/0, faults by name.
 -/
 namespace Fcppt.C06.Drv
@@ -26,11 +33,99 @@ def fold2 (f : Int → Int → String) (as bs : List Int) : UInt64 :=
   as.foldl (fun h a => bs.foldl (fun h b => fnv h (f a b)) h) fnvInit
 def fold3 (f : Int → Int → Int → String) (as : List Int) : UInt64 :=
   as.foldl (fun h a => as.foldl (fun h b => as.foldl (fun h c => fnv h (f a b c)) h) h) fnvInit
+def fold4 (f : Int → Int → Int → Int → String) (as : List Int) : UInt64 :=
+  as.foldl (fun h a => as.foldl (fun h b => as.foldl (fun h c => as.foldl (fun h d => fnv h (f a b c d)) h) h) h) fnvInit
+
+/-- a binary / ternary function applied to one value in every position -/
+def aliased (f : String) : Option (Int → String) :=
+  match table2.lookup f with
+  | some g => some (fun a => g a a)
+  | none => match table3.lookup f with
+    | some g => some (fun a => g a a a)
+    | none => none
+
+/-- size types of the harness enums (the unsigned counterpart of the underlying type) -/
+def enumSizeTy : String → Option IntTy
+  | "u8" => some IntTy.u8 | "u16" => some IntTy.u16 | "u32" => some IntTy.u32 | "u64" => some IntTy.u64
+  | "i8" => some IntTy.u8 | "i32" => some IntTy.u32
+  | _ => none
+
+/-- `interval_distance` on `int32_t` / `int64_t`: outside this guard (some difference of two of the four operands is not
+representable) the C++ may overflow depending on its control flow; the harness answers "guard" by the same rule and
+does not call the function. -/
+def guard4 (f : String) (a b c d : Int) : Bool :=
+  let t? := if f = "interval_distance_i32" then some IntTy.i32 else if f = "interval_distance_i64" then some IntTy.i64 else none
+  match t? with
+  | none => true
+  | some t => [a, b, c, d].all (fun x => [a, b, c, d].all (fun y => decide (t.InRange (x - y))))
+
+def guarded4 (f : String) (g : Int → Int → Int → Int → String) : Int → Int → Int → Int → String :=
+  fun a b c d => if guard4 f a b c d then g a b c d else "guard"
+
+/-- Integral types that are not one of the eight fixed-width typedefs but have the representation of one of them
+(LP64 Linux): `long long`, `unsigned long long`, plain `char` (signed), `wchar_t` (int), `char8_t`, `char16_t`,
+`char32_t`.  `truncation_check_ll_i32` is looked up as `truncation_check_i64_i32`: the instantiation has the same
+clang AST up to the spelling of the type. -/
+def canonTy : String → String
+  | "ll" => "i64" | "ull" => "u64" | "ch" => "i8" | "wc" => "i32" | "c8" => "u8" | "c16" => "u16" | "c32" => "u32"
+  | t => t
+
+def canonName (f : String) : String :=
+  match f.splitOn "_" with
+  | ["truncation", "check", d, s] => "truncation_check_" ++ canonTy d ++ "_" ++ canonTy s
+  | _ => f
+
+/-- `bool` as SOURCE has no translated instantiation (the driver's tables take integers): every `bool` is representable in
+every integer type, the specification itself is the model there.  (`bool` as destination is translated: `truncation_check_b_*`.) -/
+def boolTy : IntTy := ⟨false, 1⟩
+
+def lookup1 (f : String) : Option (Int → String) :=
+  match f.splitOn "_" with
+  | ["truncation", "check", d, "b"] =>
+    if ["u8", "u16", "u32", "u64", "i8", "i16", "i32", "i64"].contains d then
+      some (fun x => if boolTy.InRange x then showOpt (.ok (some x)) else "bad-op")
+    else none
+  | _ => table1.lookup (canonName f)
 
 def handle (toks : List String) : String :=
   match toks with
+  | ["call", f] =>
+    match table0.lookup f with
+    | some r => r
+    | none => "bad-op"
+  | ["call", f, a, b, c, d] =>
+    match table4.lookup f, a.toInt?, b.toInt?, c.toInt?, d.toInt? with
+    | some g, some a, some b, some c, some d => guarded4 f g a b c d
+    | _, _, _, _, _ => "bad-op"
+  | ["list4", f, as] =>
+    match table4.lookup f, parseIntList as with
+    | some g, some as => "D " ++ hex64 (fold4 (guarded4 f g) as)
+    | _, _ => "bad-op"
+  | ["alias", f, a] =>
+    match aliased f, a.toInt? with
+    | some g, some a => g a
+    | _, _ => "bad-op"
+  | ["aliasl", f, as] =>
+    match aliased f, parseIntList as with
+    | some g, some as => "D " ++ hex64 (fold1 g as)
+    | _, _ => "bad-op"
+  | ["aliasr", f, lo, hi] =>
+    match aliased f, lo.toInt?, hi.toInt? with
+    | some g, some lo, some hi => "D " ++ hex64 (fold1 g (irange lo hi))
+    | _, _, _ => "bad-op"
+  | ["static2", f, a, b] =>
+    -- ceil_div_static<T, a, b>: the run-time function of the same type on the same operands (b ≠ 0 is a static_assert)
+    match (if f = "ceil_div_static_u32" then table2.lookup "ceil_div_u32" else if f = "ceil_div_static_u64" then table2.lookup "ceil_div_u64" else none),
+          a.toInt?, b.toInt? with
+    | some g, some a, some b => if b = 0 then "bad-op" else g a b
+    | _, _, _ => "bad-op"
+  | ["enumsize", u, m] =>
+    -- enum_::size<E> = integral_constant<size_type<E>, enum_to_int<size_type<E>>(max_value<E>) + 1U>
+    match enumSizeTy u, m.toInt? with
+    | some t, some m => if 0 ≤ m ∧ t.InRange (m + 1) then toString (m + 1) else "bad-op"
+    | _, _ => "bad-op"
   | ["call", f, a] =>
-    match table1.lookup f, a.toInt? with
+    match lookup1 f, a.toInt? with
     | some g, some a => g a
     | _, _ => "bad-op"
   | ["call", f, a, b] =>
@@ -42,7 +137,7 @@ def handle (toks : List String) : String :=
     | some g, some a, some b, some c => g a b c
     | _, _, _, _ => "bad-op"
   | ["range1", f, lo, hi] =>
-    match table1.lookup f, lo.toInt?, hi.toInt? with
+    match lookup1 f, lo.toInt?, hi.toInt? with
     | some g, some lo, some hi => "D " ++ hex64 (fold1 g (irange lo hi))
     | _, _, _ => "bad-op"
   | ["range2", f, alo, ahi, blo, bhi] =>
@@ -54,7 +149,7 @@ def handle (toks : List String) : String :=
     | some g, some lo, some hi => "D " ++ hex64 (fold3 g (irange lo hi))
     | _, _, _ => "bad-op"
   | ["list1", f, as] =>
-    match table1.lookup f, parseIntList as with
+    match lookup1 f, parseIntList as with
     | some g, some as => "D " ++ hex64 (fold1 g as)
     | _, _ => "bad-op"
   | ["list2", f, as, bs] =>
@@ -66,6 +161,10 @@ def handle (toks : List String) : String :=
     | some g, some as => "D " ++ hex64 (fold3 g as)
     | _, _ => "bad-op"
   | ["selfcheck", _, n] => "ok " ++ n
+  | ["selfcheck", _, alo, ahi] =>
+    match alo.toInt?, ahi.toInt? with
+    | some alo, some ahi => if alo ≤ ahi then "ok " ++ toString ((ahi - alo + 1) * 65536) else "bad-op"
+    | _, _ => "bad-op"
   | _ => "bad-op"
 
 def main : IO Unit := Proto.run handle
